@@ -149,6 +149,28 @@ def compare(scs, variants, acc):
                         factor.append(key)
                 if v.get("env"):
                     factor.append("VSC_CAPTURE_SRCINFO")
+                # isolate: which single factor is enough?
+                single = []
+                try:
+                    for key in list(factor):
+                        v1 = dict(BASELINE)
+                        if key == "VSC_CAPTURE_SRCINFO":
+                            v1["env"] = v["env"]
+                        else:
+                            v1[key] = v[key]
+                        if run_child([scs[i]], v1)[0] != a:
+                            single.append(key)
+                except Exception:
+                    pass
+                if single:
+                    factor = ["%s alone" % "/".join(single)]
+                    v = dict(BASELINE)
+                    k0 = single[0]
+                    if k0 == "VSC_CAPTURE_SRCINFO":
+                        v["env"] = {"VSC_CAPTURE_SRCINFO": "1"}
+                    else:
+                        v[k0] = [x for x in variants if x[k0] != BASELINE[k0]][0][k0]
+                    b = run_child([scs[i]], v)[0]
                 vios.append(V("trace_differs", "values differ between processes that differ only in: %s" % "+".join(factor),
                               {"scenario": scs[i], "variant": v},
                               "variant %s: first difference at op #%d: baseline %s, variant %s" % (vkey(v), k, a[k] if k < len(a) else None, b[k] if k < len(b) else None)))
